@@ -19,6 +19,8 @@ from pycoin.satoshi import der as _der
 from pycoin.satoshi import checksigops as _cso
 from pycoin.coins.SolutionChecker import ScriptError
 
+import c05_keychain as KCH
+
 PROP = "C05"
 EXTRA_PROPS = ["C05compose", "C05ec"]   # templates sound+complete w.r.t. Core's VerifyScript (see DESIGN.md section 0); C05ec: ECDSA interface instantiated for secp256k1
 DRIVER = "C05"
@@ -202,6 +204,7 @@ def _memo(f):
 
 ORACLES = {"c05_pub": _memo(_o_pub), "c05_sign": _memo(_o_sign), "c05_verify": _memo(_o_verify), "c05_sighash": _memo(_o_sighash),
            "hash160": _memo(ORACLES["hash160"]), "sha256": _memo(ORACLES["sha256"])}
+ORACLES.update({k: _memo(v) for k, v in KCH.ORACLES.items()})
 
 
 # ------------------------------------------------------------------------------------------------
@@ -282,7 +285,7 @@ def gen_scenario(seedstr, big=False):
             path = rng.choice(["%d", "0/%d", "%dH", "1H/%d", "44H/0H/%d"]) % counter[0]
             se = master.subkey_for_path(path).secret_exponent()
             sc.paths[se] = path
-            return (se, True)
+            return (se, (rng.random() < 0.75) if allow_uncompressed else True)
         return (_rand_secret(rng), (rng.random() < 0.7) if allow_uncompressed else True)
 
     n_in = rng.choice([1, 1, 2, 2, 3, 4]) if not big else 1
@@ -401,6 +404,29 @@ def state_of(tx):
     return [(bytes(t.script), [bytes(x) for x in t.witness]) for t in tx.txs_in]
 
 
+class _HashType(int):
+    pass
+
+
+def _present_idxs(idxs, salt):
+    """the same selection of inputs in one of several container presentations (the empty selection included)"""
+    k = _random.Random("idxp" + salt + repr(idxs)).randrange(7)
+    idxs = list(idxs)
+    if k == 0:
+        return set(idxs)
+    if k == 1:
+        return list(reversed(idxs))
+    if k == 2:
+        return tuple(idxs)
+    if k == 3:
+        return frozenset(idxs)
+    if k == 4:
+        return dict.fromkeys(idxs, True)
+    if k == 5 and idxs == list(range(idxs[0], idxs[0] + len(idxs))) if idxs else k == 5:
+        return range(idxs[0], idxs[0] + len(idxs)) if idxs else range(0)
+    return idxs + idxs[:1]          # a list with a repeated index
+
+
 def run_pass(sc, tx, p):
     """apply one signing pass with the pass's mechanism; returns the exception tag or None"""
     net = sc.net
@@ -408,7 +434,9 @@ def run_pass(sc, tx, p):
     if p["ht"] is not None or _random.Random(repr(p["secrets"])).random() < 0.5:
         kw["hash_type"] = p["ht"]
     if p["idxs"] is not None:
-        kw["tx_in_idx_set"] = set(p["idxs"])
+        kw["tx_in_idx_set"] = _present_idxs(p["idxs"], repr(p["secrets"]))
+    if kw.get("hash_type") is not None and _random.Random("htp" + repr(p["secrets"])).random() < 0.3:
+        kw["hash_type"] = _HashType(kw["hash_type"])          # an int subclass is an int
     try:
         if p["mech"] == "lookup":
             kw["p2sh_lookup"] = net.tx.solve.build_p2sh_lookup(p["scripts"])
@@ -420,12 +448,44 @@ def run_pass(sc, tx, p):
         else:
             kc = net.keychain()
             paths = [sc.paths[se] for se in p["secrets"] if se in sc.paths]
-            kc.add_key_paths(sc.master, paths)
-            kc.add_secrets([sc.master])
             loose = [net.keys.private(se) for se in p["secrets"] if se not in sc.paths]
-            kc.add_secrets(loose)
+            # the history of the keychain object before the signing call (all end in the same contents)
+            variant = _random.Random("kcv" + repr(p["secrets"]) + repr(p["ht"])).randrange(4)
             kc.add_p2s_scripts(p["scripts"])
             kw["p2sh_lookup"] = kc
+            if variant == 0:
+                kc.add_key_paths(sc.master, paths)
+                kc.add_secrets([sc.master])
+                kc.add_secrets(loose)
+            elif variant == 1:
+                # watch-only first: paths filed with the public key, lookups and a signing attempt on a copy, then the secrets
+                nonhard = [q for q in paths if "H" not in q]
+                kc.add_key_paths(sc.master.public_copy(), nonhard)
+                kc.add_key_paths(sc.master, [q for q in paths if "H" in q])
+                for inp in sc.inputs:
+                    for se, c in inp.keyspecs:
+                        kc.get(_h160(public_pair_to_sec(se * GEN, compressed=c)))
+                probe = build_tx(sc, state_of(tx))
+                probe.sign(kc, **kw)
+                kc.add_secrets(loose)
+                kc.add_secret(sc.master)
+            elif variant == 2:
+                # secrets first, paths later, lookups in between
+                kc.add_secrets(loose)
+                kc.add_secret(sc.master)
+                for inp in sc.inputs:
+                    kc.get(inp.hash or b"\x00" * 20)
+                kc.add_key_paths(sc.master, paths)
+            else:
+                # secrets come and go: clear_secrets, then everything again
+                kc.add_key_paths(sc.master, paths)
+                kc.add_secret(sc.master)
+                for q in paths[:2]:
+                    kc.get(sc.master.subkey_for_path(q).hash160())
+                kc.clear_secrets()
+                for q in paths[:2]:
+                    kc.get(sc.master.subkey_for_path(q).hash160())
+                kc.add_secrets(loose + [sc.master])
             tx.sign(kc, **kw)
     except Exception as e:  # noqa
         return exn_tag(e)
@@ -709,6 +769,8 @@ def model_cases(rng, tier):
             yield c
     for c in _codec_cases(rng, tier, all_sigs):
         yield c
+    for c in KCH.model_cases(rng, tier):     # keychain operation histories
+        yield c
 
 
 def _scenario_cases(seedstr, big, tier, all_sigs):
@@ -909,9 +971,14 @@ def prop_cases(rng, tier):
     for sym in SYMS:
         for k in (K_P2PK, K_P2PKH, K_P2WPKH, K_P2SH_P2WPKH):
             yield PropCase("stale-pkh", {"sym": sym, "kind": k}, (lambda sym=sym, k=k: chk_stale_pkh(sym, k)))
+    for pc in KCH.prop_cases(rng, tier):         # key-supply histories (one keychain / dict across passes and transactions)
+        yield pc
 
 
 def replay_input(check, inp):
+    r = KCH.replay_input(check, inp) if check in ("kc-history", "kc-watch-only", "kc-uncompressed", "kc-two-routes", "dict-reuse") else None
+    if check in ("kc-history", "kc-watch-only", "kc-uncompressed", "kc-two-routes", "dict-reuse"):
+        return r
     if check == "scenario":
         return chk_scenario(inp["seed"], inp["big"])
     if check == "resign":
@@ -947,7 +1014,7 @@ def chk_stale_pkh(sym="btc", kind=K_P2PKH):
 
 
 def classify(pc, r):
-    return None          # no open finding for this property
+    return KCH.classify(pc, r)
 
 
 KNOWN_REPLAYS = {}
@@ -962,7 +1029,13 @@ def search(rng, tier, disagreements, known_ids):
                                   (lambda s=meta["seed"], b=meta.get("big", False): chk_scenario(s, b))))
             cands.append(PropCase("resign", {"seed": meta["seed"], "big": meta.get("big", False)},
                                   (lambda s=meta["seed"], b=meta.get("big", False): chk_resign_other_type(s, b))))
+        if "kcseed" in meta:
+            cands.append(PropCase("kc-history", {"seed": meta["kcseed"], "sym": meta.get("sym")},
+                                  (lambda s=meta["kcseed"], y=meta.get("sym"): KCH.chk_history(s, y))))
     for sym in SYMS:
+        for order in ("get-first", "sign-first"):
+            cands.append(PropCase("kc-watch-only", {"sym": sym, "order": order},
+                                  (lambda sym=sym, order=order: KCH.chk_watch_only_then_secret(sym, order))))
         for k in (K_P2PKH, K_P2WPKH, K_P2SH_P2WPKH):
             cands.append(PropCase("stale-pkh", {"sym": sym, "kind": k}, (lambda sym=sym, k=k: chk_stale_pkh(sym, k))))
     cands += list(prop_cases(rng, tier))
